@@ -122,9 +122,12 @@ def evaluate(t, labels):
     if op == '%':
         if b == 0:
             raise DontCare('modulo by zero')
-        if not (_is_int(a) and _is_int(b)) or a < 0 or b < 0:
-            raise DontCare('modulo of negative or non-integer operands')
-        return int(a) % int(b)
+        if a < 0 or b < 0:
+            raise DontCare('modulo of negative operands (sign conventions differ)')
+        # non-negative operands, integer or not: the remainder a - b*floor(a/b) is what every convention gives
+        fa, fb = Fraction(a), Fraction(b)
+        r = fa - fb * math.floor(fa / fb)
+        return int(r) if r.denominator == 1 else r
     if not (_is_int(a) and _is_int(b)):
         raise DontCare('bitwise/shift on a non-integer')
     a, b = int(a), int(b)
